@@ -17,6 +17,9 @@ func FieldNamed(l ast.FieldList, name string) *ast.FieldDefinition { panic("ghos
 // TString: the full type reference of an ast.Type.
 func TString(t *ast.Type) string { panic("ghost") }
 
+// VString: the printed form of an ast.Value.
+func VString(v *ast.Value) string { panic("ghost") }
+
 //@ assume-nonnil-elems *ast.Definition
 //@ assume-nonnil-elems *ast.Schema
 //@ assume-nonnil-elems *ast.FieldDefinition
@@ -31,6 +34,11 @@ func TString(t *ast.Type) string { panic("ghost") }
 
 //@ extern github.com/buildbuildio/pebbles/common IsBuiltinName
 //@ ensures result == hasprefix(s, "__")
+//@ modifies fresh
+//@ end
+
+//@ extern github.com/buildbuildio/pebbles/common IsQueryObjectName
+//@ ensures result == (s == "Query")
 //@ modifies fresh
 //@ end
 
@@ -191,13 +199,55 @@ func TString(t *ast.Type) string { panic("ghost") }
 //@ modifies fresh
 //@ end
 
+// VString: what (*ast.Value).String returns.
+//@ extern github.com/vektah/gqlparser/v2/ast (*Value).String
+//@ ensures result == VString(v)
+//@ modifies fresh
+//@ end
+
+//@ define sameDefault(x *ast.Value, y *ast.Value) bool = (x == nil) == (y == nil) && (x != nil ==> VString(x) == VString(y))
+//@ define sameArg(x *ast.ArgumentDefinition, y *ast.ArgumentDefinition) bool = x.Name == y.Name && TString(x.Type) == TString(y.Type) && sameDefault(x.DefaultValue, y.DefaultValue)
+//@ define sameSig(x *ast.FieldDefinition, y *ast.FieldDefinition) bool = TString(x.Type) == TString(y.Type) && len(x.Arguments) == len(y.Arguments) && forall(k, 0, len(x.Arguments), sameArg(x.Arguments[k], y.Arguments[k]))
+// gqlparser's schema validation rejects a type that declares a field name twice
+//@ define uniqueNames(l ast.FieldList) bool = forall(u, 0, len(l), forall(v, 0, u, l[v].Name != l[u].Name))
+
+//@ func isSameFieldSignature
+//@ props C05 C03
+//@ requires a != nil && b != nil
+//@ ensures[spec] result ==> sameSig(a, b)
+//@ ensures[spec-only] !result ==> !sameSig(a, b)
+//@ modifies fresh
+//@ loop 0 invariant[args] TString(a.Type) == TString(b.Type) && len(a.Arguments) == len(b.Arguments) && forall(k, 0, it, sameArg(a.Arguments[k], b.Arguments[k]))
+//@ end
+
+//@ func mergeableFields
+//@ props C05 C03
+//@ requires t != nil
+//@ ensures[all] forall(j, 0, len(t.Fields), !hasprefix(t.Fields[j].Name, "__") ==> exists(m, 0, len(result), result[m] == t.Fields[j]))
+//@ ensures[fresh] fresh(result)
+//@ modifies fresh
+//@ loop 0 invariant[all] fresh(result) && forall(j, 0, it, !hasprefix(t.Fields[j].Name, "__") ==> exists(m, 0, len(result), result[m] == t.Fields[j])) @using all
+//@ end
+
+//@ define copyOf(x *ast.FieldDefinition, y *ast.FieldDefinition) bool = x != nil && x.Name == y.Name && x.Type == y.Type && sameslice(x.Arguments, y.Arguments)
+
 //@ func mergeCustomObjectFields
 //@ props C05 C03
 //@ returns res, err
 //@ requires a != nil && b != nil
-//@ loop 2 invariant[keys] isOverlappinggMap != nil && len(mf) == len(mf) && forallT(i, int, has(isOverlappinggMap, i) ==> 0 <= i && i < it)
-//@ ensures[type-conflict-rejected] err == nil ==> forall(i, 0, len(a.Fields), forall(j, 0, len(b.Fields), a.Fields[i].Name == b.Fields[j].Name && !hasprefix(b.Fields[j].Name, "__") ==> TString(a.Fields[i].Type) == TString(b.Fields[j].Type))) @props C05
+//@ assumes uniqueNames(a.Fields)
+//@ ensures[type-conflict-rejected] err == nil && a.Name != "Query" ==> forall(j, 0, len(b.Fields), !hasprefix(b.Fields[j].Name, "__") ==> forall(i, 0, len(a.Fields), a.Fields[i].Name == b.Fields[j].Name ==> sameSig(a.Fields[i], b.Fields[j]))) @using checked, all @props C05
 //@ modifies-assumed fresh
+//@ loop 0 modifies fresh
+//@ loop 0 invariant[own] cap(result) == 0 || freshloop(result)
+//@ loop 0 invariant[copy] a.Name != "Query" ==> len(result) == it && forall(i, 0, it, fresh(result[i]) && copyOf(result[i], a.Fields[i])) @using copy, own
+//@ loop 1 modifies fresh
+//@ loop 1 invariant[own] cap(unchnagedResult) == 0 || freshloop(unchnagedResult)
+//@ loop 2 invariant[keys] isOverlappinggMap != nil && forallT(i, int, has(isOverlappinggMap, i) ==> 0 <= i && i < it)
+//@ loop 2 modifies result[*], isOverlappinggMap[*], fresh
+//@ loop 2 invariant[own] (cap(result) == 0 || fresh(result)) && (base(result) == base(atloop(result)) && off(result) == off(atloop(result)) || freshloop(result)) && fresh(mf) && base(mf) != base(result)
+//@ loop 2 invariant[prefix] a.Name != "Query" ==> len(result) >= len(a.Fields) && forall(i, 0, len(a.Fields), copyOf(result[i], a.Fields[i])) @using prefix, own
+//@ loop 2 invariant[checked] a.Name != "Query" ==> forall(j, 0, it, forall(i, 0, len(a.Fields), a.Fields[i].Name == mf[j].Name ==> sameSig(a.Fields[i], mf[j]))) @using checked, prefix, spec, own
 //@ end
 
 //@ func mergeCustomObjects
